@@ -347,6 +347,41 @@ PROPS["C23"] = {
     "assumptions": ["tcp bind= is documented as unsupported by the parser and is not generated; vsock is not compiled in this build"],
 }
 
+PROPS["C31"] = {
+    "level": "exploration",
+    "plan": zb_plan(("release", "miri")),
+    "rule": ("a proxy (unique or well-known destination; cache primed by build() or lazily) with one uncached property, against a scripted service "
+             "that owns the truth about 4 properties: 0..2 PropertiesChanged signals emitted as soon as the proxy's match rule is registered "
+             "(before its GetAll call exists), 0..3 between the call and the reply, the reply (the service's state at that moment), 0..6 "
+             "right behind it in the same burst (changed values, invalidations, other interface, uncached name, look-alikes from a "
+             "stranger), arbitrary read chunking, 6 scheduler biases; at quiescence cached_property of every property must equal "
+             "what the messages imply in receive order; get_property must return the cached value without asking, or ask the service "
+             "exactly when nothing is cached; 0..2 later rounds; a receive_property_changed consumer must end with the service's "
+             "latest value; distinct = distinct (history, schedule)"),
+    "gates": {"quick": {"evaluations": 2800, "distinct": 2500, "cached_values_checked": 20000, "get_property_checked": 10000, "events_around_the_reply": 10000,
+                        "property_streams_checked": 2000, "class:stream-saw-updates": 800, "class:update-in-the-same-read-as-the-reply": 500, "class:lazy-cache": 500},
+              "thorough": {"evaluations": 110000, "distinct": 100000}},
+    "assumptions": ["the scripted service is consistent: its GetAll/Get replies carry its state at the moment it answers, as a real service's do",
+                    "signals that arrive before the GetAll reply are superseded by it (they are older than the snapshot)"],
+}
+
+PROPS["C32"] = {
+    "level": "exploration",
+    "plan": zb_plan(("release", "miri")),
+    "rule": ("a proxy signal stream (one member or all) for a well-known name against the scripted bus, which owns the truth about the name's "
+             "owner: the GetNameOwner reply is held back while 0..3 events are routed before it and 0..3 right behind it (same burst), "
+             "then 2..6 (3..10 thorough) rounds of 1..6 events at quiescent points: matching and near-miss signals from the owner "
+             "(broadcast, routed by the REGISTERED rules), from former owners and strangers (unicast to the connection), driver "
+             "NameOwnerChanged (incl. to nobody and back), forged NameOwnerChanged from peers, driver signals for other names; a third "
+             "of the histories add a type='signal' subscriber; after creation every round's yield must equal exactly the matching "
+             "signals whose sender owned the name when the bus routed them; distinct = distinct (history, schedule)"),
+    "gates": {"quick": {"evaluations": 2800, "distinct": 2500, "rounds_checked": 9000, "signals_sent": 15000, "signals_expected": 4000,
+                        "ownership_changes": 3000, "forged_ownership_claims": 3000, "class:events-around-the-owner-lookup": 1500},
+              "thorough": {"evaluations": 110000, "distinct": 100000}},
+    "assumptions": ["signals routed while the stream is still being created may or may not be yielded (the stream does not exist yet); they must at least be ones that were sent",
+                    "the scripted bus is consistent: its GetNameOwner reply reflects the owner at the moment it answers"],
+}
+
 PROPS["C34"] = {
     "level": "exploration",
     "plan": zb_plan(("release", "miri")),
